@@ -94,6 +94,11 @@ func (t *Teamserver) LinkRemove(ParentAgent *agent.Agent, LinkAgent *agent.Agent
 	}
 
 	verifhook.Point("ts.linkremove.mid")
+	// the unlinked agent no longer has this parent
+	if LinkAgent.Pivots.Parent == ParentAgent {
+		LinkAgent.Pivots.Parent = nil
+	}
+
 	err := t.DB.LinkRemove(int(ParentAgentID), int(LinkAgentID))
 	if err != nil {
 		logger.Error("Could not remove link to database: " + err.Error())
